@@ -76,7 +76,7 @@ CHECKS = {
     ),
     "C18": dict(
         text="TLC enumerates the Guards decision table (request records over 11 finite coordinates; verdict = first guard the code reaches, with stage and exception class) and checks DocumentedRejected, EarlyEnough, NoSpuriousReject on every row. One replay per exported row (quick: sample of single-fault, accepted and multi-fault rows; thorough: all ~10^4) on the real API (single point or one MD step): raised-vs-returned must equal the verdict, after a raise nothing may have been published on the molecule, returned rows must be finite or flagged. 25 stress inputs (0.5x-30x geometries, charges +-2/+4, third-row elements, four methods) must be finite or flagged.",
-        note="Malformed variants derive from two valid base batches (2xH2O, H2O+CH4). Two late rejections in MD (CIS on a heterogeneous batch, RPA) are known findings. Guards of options outside the listed preconditions are not in the table.",
+        note="Malformed variants derive from two valid base batches (2xH2O, H2O+CH4). The two late rejections in MD that existed (CIS on a heterogeneous batch, RPA amplitude reuse) were repaired. Guards of options outside the listed preconditions are not in the table.",
         tech="explicit TLA+ decision table (Guards) enumerated by TLC; one replay per exported row on the real API",
         ref="DESIGN.md §4 C18",
     ),
